@@ -28,6 +28,8 @@
       conditions the evaluator's result for the four rule shapes IS the storage query, and that query's every point is the
       engine aggregate of the per-series storage values, for what ∈ sum/sumsec/count/countsec/min/max (avg: reduce_avg_sound).
       Excluded with witness: stdvar/stddev (stdvar_pushdown_is_not_population — the known finding).
+    * groupKey_dedup / aggregate_dedup / queryStorage_dedup / rule0_dedup: grouping depends on the SET of resolved tag indices
+      (a tag named twice, or by two of its names, changes neither the engine-side grouping nor the pushed-down query).
     * quantile_def (∀ q ∈ [0,1]: linear interpolation between the closest ranks of the sorted present points, with bounds),
       aggQuantile_perm (function of the multiset of present points), topk_def / topK_eq (per-series weight semantics).
     * aggGroup_repo_violates, aggStdVar_repo_violates, repo_reduction_violates: the pinned tree's behaviour (Cfg.repo)
@@ -1230,6 +1232,63 @@ theorem topK_eq (ts : TS) (desc : Bool) (k : Int) (wo : Bool) (ls : List Nat) (s
 example :
     selectTop true 2 [(3, ⟨[(1, 1)], []⟩), (9, ⟨[(1, 2)], []⟩), (5, ⟨[(1, 3)], []⟩)] = [(9, ⟨[(1, 2)], []⟩), (5, ⟨[(1, 3)], []⟩)] ∧
     selectTop false 1 [(3, ⟨[(1, 1)], []⟩), (9, ⟨[(1, 2)], []⟩), (5, ⟨[(1, 3)], []⟩)] = [(3, ⟨[(1, 1)], []⟩)] := by
+  decide +kernel
+
+
+/-! ### grouping is by the SET of resolved tag indices -/
+
+theorem contains_eraseDups (ls : List Nat) (x : Nat) : ls.eraseDups.contains x = ls.contains x := by
+  rw [Bool.eq_iff_iff]
+  simp only [List.contains_iff_mem, List.mem_eraseDups]
+
+/-- **groupKey_dedup** — naming a tag twice in by/without (repeated, or by two of its names: both resolve to the same
+    index) changes nothing: the grouping key of every series is the key under the de-duplicated label list. -/
+theorem groupKey_dedup (without : Bool) (labels : List Nat) (tags : Tags) :
+    keyOf without labels tags = keyOf without labels.eraseDups tags := by
+  unfold keyOf
+  apply List.filter_congr
+  intro t _
+  rw [contains_eraseDups]
+
+theorem groupKey_perm_labels (without : Bool) (l1 l2 : List Nat) (h : ∀ x, x ∈ l1 ↔ x ∈ l2) (tags : Tags) :
+    keyOf without l1 tags = keyOf without l2 tags := by
+  unfold keyOf
+  apply List.filter_congr
+  intro t _
+  have : l1.contains t.1 = l2.contains t.1 := by
+    rw [Bool.eq_iff_iff]; simp only [List.contains_iff_mem]; exact h t.1
+  rw [this]
+
+/-- the engine-side aggregation, the pushed-down storage query and topk depend on the grouping labels only through their set -/
+theorem aggregate_dedup (n : Nat) (f : List Val → Val) (without : Bool) (labels : List Nat) (ss : List Series) :
+    aggregate n f without labels ss = aggregate n f without labels.eraseDups ss := by
+  unfold aggregate
+  simp only [← groupKey_dedup]
+
+theorem queryStorage_dedup (st : Store) (ts : TS) (w : What) (groupBy : List Nat) (range : Int) :
+    queryStorage st ts w groupBy range = queryStorage st ts w groupBy.eraseDups range := by
+  unfold queryStorage
+  simp only [← groupKey_dedup]
+
+theorem pushGroupBy_dedup (st : Store) (ts : TS) (w : What) (wo : Bool) (ls : List Nat) (range : Int) :
+    queryStorage st ts w (pushGroupBy wo ls) range = queryStorage st ts w (pushGroupBy wo ls.eraseDups) range := by
+  unfold pushGroupBy
+  cases wo with
+  | false => simp only [Bool.false_eq_true, if_false]; exact queryStorage_dedup st ts w ls range
+  | true =>
+    simp only [if_true]
+    have : allTags.filter (fun t => !ls.contains t) = allTags.filter (fun t => !ls.eraseDups.contains t) := by
+      apply List.filter_congr; intro t _; rw [contains_eraseDups]
+    rw [this]
+
+/-- hence `sum by (a, a) (m)`, `sum by (a, key1) (m)` and `sum by (a) (m)` are the same storage query (rule #0) -/
+theorem rule0_dedup (st : Store) (ts : TS) (op : AggOp) (w : What) (wo : Bool) (ls : List Nat) (hw : aggWhat op = some w) :
+    evalChain Cfg.fixed st ts none [.agg op wo ls] = evalChain Cfg.fixed st ts none [.agg op wo ls.eraseDups] := by
+  rw [rule0_expression st ts op w wo ls hw, rule0_expression st ts op w wo ls.eraseDups hw]
+  exact pushGroupBy_dedup st ts w wo ls 0
+
+example : keyOf false [2, 1, 2, 1] [(1, 7), (2, 8), (3, 9)] = [(1, 7), (2, 8)] ∧ [2, 1, 2, 1].eraseDups = [2, 1] ∧
+    exec Cfg.fixed exStore exTS none [.agg .sum false [2, 2]] = exec Cfg.fixed exStore exTS none [.agg .sum false [2]] := by
   decide +kernel
 
 
